@@ -34,6 +34,9 @@ pub struct Case {
     pub clones: u8,
     pub delay_ms: u8,
     pub stalled_stream: bool,
+    /// healthy peer streams / datagrams sent in the same flight as the cause (before and after it)
+    #[serde(default)]
+    pub noise: u8,
 }
 
 fn code_strategy() -> impl Strategy<Value = u64> {
@@ -50,8 +53,8 @@ pub fn case_strategy() -> impl Strategy<Value = Case> {
         1 => Just(Cause::IdleTimeout),
         3 => Just(Cause::HandlesDropped),
     ];
-    (0u8..3, any::<bool>(), cause, any::<u8>(), 1u8..=4, prop_oneof![Just(0u8), Just(3), Just(25)], any::<bool>())
-        .prop_map(|(flavor, wt_is_server, cause, ops, clones, delay_ms, stalled_stream)| Case { flavor, wt_is_server, cause, ops: if ops == 0 { 0b0000_0111 } else { ops }, clones, delay_ms, stalled_stream })
+    (0u8..3, any::<bool>(), cause, any::<u8>(), 1u8..=4, prop_oneof![Just(0u8), Just(3), Just(25)], any::<bool>(), prop_oneof![2 => Just(0u8), 1 => 1u8..10])
+        .prop_map(|(flavor, wt_is_server, cause, ops, clones, delay_ms, stalled_stream, noise)| Case { flavor, wt_is_server, cause, ops: if ops == 0 { 0b0000_0111 } else { ops }, clones, delay_ms, stalled_stream, noise })
 }
 
 #[derive(Default)]
@@ -196,9 +199,19 @@ async fn exec_async(case: Arc<Case>) -> CaseResult {
                 let c = h($idx);
                 let sh = shared.clone();
                 tasks.push(($name.to_string(), tokio::spawn(async move {
-                    let r = match c.$call().await {
-                        Ok(_) => "Ok".to_string(),
-                        Err(e) => conn_err(&e),
+                    // streams / datagrams that arrive before the end are legitimately returned:
+                    // keep asking until the call fails
+                    let mut n = 0usize;
+                    let r = loop {
+                        match c.$call().await {
+                            Ok(_) => {
+                                n += 1;
+                                if n > 64 {
+                                    break "Ok".to_string();
+                                }
+                            }
+                            Err(e) => break conn_err(&e),
+                        }
                     };
                     sh.lock().unwrap().results.push(($name.to_string(), r));
                 })));
@@ -261,6 +274,21 @@ async fn exec_async(case: Arc<Case>) -> CaseResult {
     if case.delay_ms > 0 {
         tokio::time::sleep(Duration::from_millis(case.delay_ms as u64)).await;
     }
+    // healthy peer traffic in the same flight as the cause
+    let peer_driven = matches!(case.cause, Cause::PeerQuicClose(..) | Cause::PeerCapsule(..) | Cause::PeerFin | Cause::ProtocolError);
+    if peer_driven {
+        for k in 0..case.noise {
+            if k % 3 == 2 {
+                let _ = raw_conn.send_datagram(refcodec::enc_datagram(session, b"noise").into());
+            } else if let Ok(mut s) = raw_conn.open_uni().await {
+                let mut b = refcodec::enc_uni_header_wt(session);
+                b.extend_from_slice(b"noise");
+                let _ = s.write_all(&b).await;
+                let _ = s.finish();
+                raw_held.push(Box::new(s));
+            }
+        }
+    }
     // raise the cause
     match &case.cause {
         Cause::PeerQuicClose(c, r) => raw_conn.close(vi(*c), r),
@@ -278,6 +306,16 @@ async fn exec_async(case: Arc<Case>) -> CaseResult {
         }
         Cause::IdleTimeout => relay.as_ref().unwrap().blackhole(true, true),
         Cause::HandlesDropped => {}
+    }
+    if peer_driven && !matches!(case.cause, Cause::PeerQuicClose(..)) {
+        for _ in 0..(case.noise / 2) {
+            if let Ok((mut s, r)) = raw_conn.open_bi().await {
+                let mut b = refcodec::enc_bi_header_wt(session);
+                b.extend_from_slice(b"noise-after");
+                let _ = s.write_all(&b).await;
+                raw_held.push(Box::new((s, r)));
+            }
+        }
     }
     if drop_case {
         // the application lets go of everything it holds
@@ -327,21 +365,37 @@ async fn exec_async(case: Arc<Case>) -> CaseResult {
             Err(_) => return CaseResult::Timeout("opening future hangs after the connection ended".into()),
         }
     }
-    // later calls of each kind
-    for round in 0..3 {
-        for (name, fut) in [
-            ("late accept_uni", Box::pin(async { conn.accept_uni().await.map(|_| ()) }) as std::pin::Pin<Box<dyn std::future::Future<Output = Result<(), wtransport::error::ConnectionError>> + Send + '_>>),
-            ("late accept_bi", Box::pin(async { conn.accept_bi().await.map(|_| ()) })),
-            ("late receive_datagram", Box::pin(async { conn.receive_datagram().await.map(|_| ()) })),
-            ("late open_uni", Box::pin(async { conn.open_uni().await.map(|_| ()) })),
-            ("late open_bi", Box::pin(async { conn.open_bi().await.map(|_| ()) })),
-        ] {
+    // later calls of each kind: items that arrived before the end and are still buffered may be
+    // handed out first (a bounded number); after that every call must fail, none may hang
+    for (name, kind) in [("late accept_uni", 0u8), ("late accept_bi", 1), ("late receive_datagram", 2), ("late open_uni", 3), ("late open_bi", 4)] {
+        let mut errors = 0;
+        let mut successes = 0;
+        while errors < 3 {
+            let fut: std::pin::Pin<Box<dyn std::future::Future<Output = Result<(), wtransport::error::ConnectionError>> + Send + '_>> = match kind {
+                0 => Box::pin(async { conn.accept_uni().await.map(|_| ()) }),
+                1 => Box::pin(async { conn.accept_bi().await.map(|_| ()) }),
+                2 => Box::pin(async { conn.receive_datagram().await.map(|_| ()) }),
+                3 => Box::pin(async { conn.open_uni().await.map(|_| ()) }),
+                _ => Box::pin(async { conn.open_bi().await.map(|_| ()) }),
+            };
             match tokio::time::timeout(bound, fut).await {
-                Ok(Ok(())) => shared.lock().unwrap().results.push((name.to_string(), "Ok".into())),
-                Ok(Err(e)) => shared.lock().unwrap().results.push((name.to_string(), conn_err(&e))),
-                Err(_) => return CaseResult::Timeout(format!("{name} (round {round}) hangs after the connection ended")),
+                Ok(Ok(())) => {
+                    successes += 1;
+                    // buffered arrivals are bounded by the hand-off queues; opening can never succeed
+                    if kind >= 3 || successes > 16 {
+                        shared.lock().unwrap().results.push((name.to_string(), "Ok".into()));
+                        break;
+                    }
+                }
+                Ok(Err(e)) => {
+                    errors += 1;
+                    shared.lock().unwrap().results.push((name.to_string(), conn_err(&e)));
+                }
+                Err(_) => return CaseResult::Timeout(format!("{name} hangs after the connection ended")),
             }
         }
+    }
+    for _ in 0..3 {
         match tokio::time::timeout(bound, conn.closed()).await {
             Ok(e) => shared.lock().unwrap().results.push(("late closed".into(), conn_err(&e))),
             Err(_) => return CaseResult::Timeout("late closed() hangs".into()),
